@@ -89,6 +89,25 @@ def cases(rng, tier, stats):
         if prog and prog[0][0] == "func":
             prog.append(("print", G.call("কাজ", g.val())))
             prog += g.reads(top)
+        # probes for names that expired with a loop body or block: inside fresh nested blocks (1..3 deep) an assignment must
+        # reach the outer variable and a read of a never-visible name must be an error
+        if r.chance(0.6):
+            lp = "ঢ"   # declared only inside the loop body below
+            prog.append(("decl", "গুনতি", G.num(0)))
+            exit_stmt = r.choice([("break",), ("continue",)])
+            prog.append(("loop", [("assign", "গুনতি", [], G.bin_("+", G.var("গুনতি"), G.num(1))),
+                                  ("if", [(G.bin_(">", G.var("গুনতি"), G.num(2)), [("break",)])], None),
+                                  ("decl", lp, g.val()), ("decl", "ক", g.val()),
+                                  ("if", [(G.bin_("==", G.var("গুনতি"), G.num(r.range(1, 2))), [("block", [exit_stmt])])], None), ("print", G.var(lp))]))
+            prog.append(("decl", "ক", g.val()))
+            depth = r.range(1, 3)
+            inner = [("assign", "ক", [], g.val()), ("print", G.var("ক"))]
+            if r.chance(0.5):
+                inner.append(("print", G.var(lp)))      # never visible here: runtime error expected
+            for _ in range(depth):
+                inner = [("block", inner)] if r.chance(0.5) else [("if", [(G.b(True), inner)], None)]
+            prog += inner
+            prog.append(("print", G.var("ক")))
         sh += g.shadow
         out.append(prog_case("scopes", prog, rng=r, mode="lines", nontrivial=g.shadow > 0, info={"shadowings": g.shadow}))
     stats["programs"] = n
